@@ -3,7 +3,7 @@
    sumor -> OCaml types; fst/snd/andb/orb/negb inlined).  nat, positive, N, Z stay inductive. *)
 Require Extraction.
 Require Import ExtrOcamlBasic.
-From MD Require Import Bytes Generated DecodeDefs HeaderDefs MimeDefs NamesDefs IODefs MainDefs EvalDefs InterpDefs ScanDefs InspectDefs ConfDefs.
+From MD Require Import Bytes Generated DecodeDefs HeaderDefs MimeDefs NamesDefs IODefs MainDefs EvalDefs InterpDefs ScanDefs InspectDefs ConfDefs DateDefs ConcDefs.
 Extraction "mdmodel.ml" Bytes.cview DecodeDefs.base64_decode_raw DecodeDefs.base64_decode
   DecodeDefs.quoted_printable_decode DecodeDefs.rfc2047_decode
   HeaderDefs.parse_message HeaderDefs.get_header HeaderDefs.set_header HeaderDefs.message_write
@@ -15,6 +15,8 @@ Extraction "mdmodel.ml" Bytes.cview DecodeDefs.base64_decode_raw DecodeDefs.base
   MainDefs.main
   EvalDefs.run_rules EvalDefs.spec_run EvalDefs.summary EvalDefs.clean EvalDefs.event_flags EvalDefs.compile EvalDefs.entries_of
   ConfDefs.parse_config ConfDefs.lex
+  ConcDefs.reach_table ConcDefs.states_of ConcDefs.finished ConcDefs.status_of ConcDefs.slot ConcDefs.gget
+  DateDefs.time_parse DateDefs.print_date DateDefs.print_zone DateDefs.date_cond DateDefs.is_utc_name DateDefs.epoch_of
   InspectDefs.inspect_entry InspectDefs.mbw_c InspectDefs.mbw_utf8 InspectDefs.dry_lines
   ScanDefs.ix_findheader ScanDefs.ix_unfoldheader ScanDefs.ix_parseboundary ScanDefs.ix_skipseparator ScanDefs.ix_findboundary
   ScanDefs.pa_walk HeaderDefs.findheader HeaderDefs.unfoldheader HeaderDefs.skipseparator MimeDefs.parseboundary MimeDefs.findboundary
